@@ -16,7 +16,8 @@ HIST_OP_PROPS = {
     "clear": set(), "swap_dimensions": set(), "reserve": set(), "reserve_exact": set(), "shrink_to_fit": set(),
     "fill": {"C13"}, "swap": {"C13"}, "swap_rows": {"C13"}, "swap_cols": {"C13"}, "set": {"C02"},
     "translate": {"C15"}, "flip_rows": {"C15"}, "flip_cols": {"C15"},
-    "sort_by_row": {"C16"}, "sort_by_col": {"C17"},
+    "sort_by_row": {"C16"}, "sort_by_col": {"C17"}, "sort_by_row_key": {"C16"}, "sort_row_ord": {"C16"},
+    "sort_by_col_key": {"C17"}, "sort_col_ord": {"C17"}, "clone_from_slice": {"C14"}, "clone_from_toodee": {"C14"},
     "clone": {"C20"}, "clone_from": {"C20"}, "into_vec": {"C20"}, "into_box": {"C20"}, "into_iter": {"C20"}, "from_view": {"C03", "C20"},
     "drop": {"C05"}, "end": {"C05"},
 }
